@@ -11,6 +11,7 @@ CONSTANTS
   InitSel <- InitAll
   SThr <- SThrHalf
   DFree = FALSE
+  ZeroExact = FALSE
   Export = FALSE
 INIT TraceInit
 NEXT TraceNext
